@@ -22,7 +22,7 @@ func (b *base) pick(q, t int) int {
 	return q
 }
 
-var digitsRe = regexp.MustCompile(`[0-9]+`)
+var digitsRe = regexp.MustCompile(`0x[0-9a-fA-F]+|[0-9]+`)
 
 // errKind reduces an error text to its kind (positions and numbers stripped).
 func errKind(err error) string {
